@@ -164,6 +164,27 @@ def peerUfrag (data : Array UInt8) : Cur (Bool × Array UInt8) := do
   alloc i
   pure (true, u.2.extract 0 i)
 
+/-! ### verify_message_integrity (stun.rs, added on main with the ICE request authentication) -/
+
+/-- attribute walk of `verify_message_integrity`; state = offset; result 0 = no MESSAGE-INTEGRITY (false),
+1 = MESSAGE-INTEGRITY of the wrong length (false), 2 = the HMAC comparison decides -/
+def verifyMiBody (bytes : Array UInt8) (offset : Nat) : Cur (Nat ⊕ Nat) := do
+  if ¬ (offset + 4 ≤ bytes.size) then pure (.inr 0) else
+  let typ ← be16 bytes offset
+  let len ← be16 bytes (offset + 2)
+  if offset + 4 + len > bytes.size then pure (.inr 0) else
+  if typ = 0x0008 then
+    let covered ← slice bytes 0 offset                    -- `bytes[..offset].to_vec()`
+    alloc offset
+    let _ ← sliceLen covered.size 2 4                     -- `write_length_field`: `buffer[2..4]`
+    if len = 20 then
+      let _ ← slice bytes (offset + 4) (offset + 24)
+      pure (.inr 2)
+    else pure (.inr 1)
+  else pure (.inl (offset + 4 + len + (4 - len % 4) % 4))
+
+def verifyMi (bytes : Array UInt8) : Cur Nat := loopM (verifyMiBody bytes) (bytes.size + 1) 20
+
 /-! ### handle_packet / handle_turn_packet classification -/
 
 /-- `handle_packet(packet, …)`: 0 = dropped (empty), 1 = STUN path (`b < 2`), 2 = DTLS/RTP path.
